@@ -49,7 +49,9 @@ RULE = ("histories = one continuous space (legacy mesa.space.ContinuousSpace: 2-
         "space, include_center both ways at coincident agents; positions as int / float / NumPy-scalar tuples, lists, float and "
         "integer arrays; per-history variety bits (heterogeneous and falsy agent classes, keyword spelling + repeated queries, "
         "shared argument objects, a second unrelated space in the process).  This stream uses multiples of 1/16 and is also "
-        "evaluated by the Gallina model; a second, oracle-only stream uses arbitrary binary64 numbers.  non-trivial = >= 3 "
+        "evaluated by the Gallina model; a second, oracle-only stream uses arbitrary binary64 numbers; a third, oracle-only SCALE "
+        "stream has populations crossing 100 / 256 / 1000 / 1001 / 1024 / 2048 / 4096 with bulk add / remove / move, radii up to 40x "
+        "an axis, k up to n and float32 / int64 position arrays.  non-trivial = >= 3 "
         "executed operations of which one is a query with a non-empty answer; distinct = by SHA1 of the history")
 TRUSTED_BASE = [
     "Coq 8.16.1 kernel (coqc); vm_compute used for the Examples, the finite facts and for evaluating the model in the correspondence",
@@ -380,10 +382,28 @@ def gen_cases(rng, tier):
     # oracle-only stream with arbitrary (non-dyadic) binary64 numbers: not evaluated by the Z-scaled model
     for i in range(220 if tier == "quick" else 5000):
         cases.append(_mk_float(rng, "legacy" if i % 5 < 2 else "exp"))
+    # SCALE stream (oracle only): populations crossing 100 / 256 / 1000 / 1001 / 1024 / 2048 / 4096, bulk add / remove / move,
+    # radii from tiny to larger than the space, k crossing thresholds up to n, rare position types
+    for i in range(12 if tier == "quick" else 120):
+        cases.append(_mk_scale(rng, "legacy" if i % 3 == 2 else "exp", big=(i % 3 == 0)))
     return cases
 
 
+def _scale_sweep(n_cases):
+    import random
+
+    rng = random.Random(20260930)
+    for i in range(n_cases):
+        yield _mk_scale(rng, "legacy" if i % 3 == 2 else "exp", big=(i % 3 == 0))
+
+
 def enumerate_cases(tier, broken=False):
+    if broken or tier == "thorough":
+        yield from _scale_sweep(40 if tier == "quick" else 80)
+    yield from _enumerate_small(tier, broken)
+
+
+def _enumerate_small(tier, broken=False):
     """targeted exhaustive sweep: every history of length <= L over a small alphabet, for every small capacity /
     torus flag.  legacy: place-next (int), move-first (to a non-integer point), remove-first, two range queries;
     experimental: add-next, move-first, remove-first, remove-last, radius query covering everything, k-nearest(k=n)."""
@@ -594,6 +614,8 @@ def run_impl(case):
 
     with warnings.catch_warnings():
         warnings.simplefilter("ignore")
+        if case.get("scale"):
+            return _run_scale(case)
         if case.get("float"):
             return _run_float(case)
         if case["space"] == "legacy":
@@ -1715,6 +1737,326 @@ def _run_float(case):
     return {"obs": obs, "failures": list(fails), "model": False}
 
 
+# ------------------------------------------------------------------ SCALE stream (oracle only)
+# Wave-9 lesson: a defect written as an optimisation hides behind a population threshold or a rare value type.  Histories
+# here are compact (bulk operations carry their own seed) but big on the implementation side: populations cross
+# 100 / 128 / 256 / 1000 / 1001 / 1024 / 2048 / 4096 (experimental array growth from small capacities, legacy cache
+# rebuilds, index maps after many removals), queries follow bulk add / bulk remove / bulk move, radii go from 0 to several
+# times the space (on elongated spaces: >= half of one axis but not of the other), k crosses the same thresholds up to n,
+# positions arrive as tuples, lists, float64 / float32 / int64 arrays.  The oracle is the statement, vectorised in float64
+# with its own formula (bit-exact positions; answers away from |d - r| <= 1e-6; distances to 1e-9 relative).
+SCALE_SIZES = [100, 101, 128, 129, 255, 256, 257, 512, 1000, 1001, 1024, 1025, 2048, 2049]
+SCALE_BIG = [1001, 1025, 2049, 4096]
+
+
+def _mk_scale(rng, space, big=False):
+    nd = 2 if space == "legacy" else rng.choice([2, 2, 3])
+    torus = rng.random() < 0.6
+    bounds = []
+    for ax in range(nd):
+        lo = rng.choice([0.0, -3.0, 10.5, rng.uniform(-50, 50)])
+        size = rng.choice([1.0, 4.0, 10.0, 25.0, 100.0, rng.uniform(2, 60)])
+        bounds.append([lo, lo + size])
+    if rng.random() < 0.5:      # elongated: one axis much shorter than another
+        ax = rng.randrange(nd)
+        bounds[ax][1] = bounds[ax][0] + (bounds[ax][1] - bounds[ax][0]) / rng.choice([4.0, 8.0, 16.0])
+    n1 = rng.choice(SCALE_BIG if big else SCALE_SIZES)
+    case = {"space": space, "scale": True, "bounds": bounds, "torus": torus}
+    if space == "exp":
+        case["cap"] = rng.choice([0, 1, 2, 100, 100, 1000, 1024])
+    sd = lambda: rng.randrange(1 << 30)  # noqa: E731
+    ops = [["bulk_add", n1, sd()]]
+    n = n1
+
+    def queries(k_):
+        out = []
+        for _ in range(k_):
+            ax = rng.randrange(nd)
+            size = bounds[ax][1] - bounds[ax][0]
+            r = size * rng.choice([0.0, 1e-3, 0.05, 0.2, 0.49, 0.5, 0.51, 0.6, 0.7, 0.99, 1.0, 1.5, 3.0, 40.0])
+            kind = rng.random()
+            if space == "legacy":
+                out.append(["nbrs", sd(), r, rng.random() < 0.7])
+            elif kind < 0.5:
+                out.append(["radius", sd(), r])
+            elif kind < 0.65:
+                out.append(["nbr_radius", sd(), r])
+            elif kind < 0.9:
+                out.append(["knear", sd(), rng.choice([1, 2, 7, 8, 9, 100, 255, 256, 257, 999, 1000, 1001, 1024, "n-1", "n", "n"])])
+            else:
+                out.append(["nbr_near", sd(), rng.choice([1, 8, 255, 256, 1000, "n-1"])])
+        return out
+
+    ops += queries(rng.randint(2, 4))
+    for _ in range(rng.randint(2, 4)):
+        r = rng.random()
+        if r < 0.3:
+            cnt = rng.choice([1, 5, 50, min(300, n // 3)])
+            ops.append(["bulk_remove", cnt, rng.choice(["first", "last", "random", "stride"]), sd()])
+        elif r < 0.6:
+            ops.append(["bulk_move", rng.choice([1, 10, 200, n]), sd()])
+        else:
+            # cross the next threshold from below
+            nxt = [t for t in (101, 129, 257, 1001, 1025, 2049) if t > n]
+            cnt = (nxt[0] - n) if nxt and nxt[0] - n <= 1100 and rng.random() < 0.7 else rng.choice([1, 30, 120])
+            ops.append(["bulk_add", cnt, sd()])
+            n += cnt
+        ops += queries(rng.randint(1, 3))
+    case["ops"] = ops
+    return case
+
+
+def _run_scale(case):
+    import random
+
+    import mesa
+    import numpy as np
+
+    sp = case["space"]
+    legacy = sp == "legacy"
+    bounds = [(float(lo), float(hi)) for lo, hi in case["bounds"]]
+    nd = len(bounds)
+    torus = case["torus"]
+    lo_v = np.array([b[0] for b in bounds])
+    hi_v = np.array([b[1] for b in bounds])
+    size_v = hi_v - lo_v
+    model = mesa.Model(seed=1)
+    if legacy:
+        from mesa.space import ContinuousSpace
+
+        space = ContinuousSpace(bounds[0][1], bounds[1][1], torus, bounds[0][0], bounds[1][0])
+    else:
+        from mesa.experimental.continuous_space import ContinuousSpace, ContinuousSpaceAgent
+
+        space = ContinuousSpace(np.array([[lo, hi] for lo, hi in bounds]), torus=torus, random=model.random, n_agents=case["cap"])
+    K = f"C10/scale/{sp}"
+    fails = _Fail()
+    obs = []
+    order = []          # labels in insertion order (the statement's space.agents)
+    pos = {}            # label -> tuple of doubles: the position the agent must report, bit for bit
+    objs = {}
+    state = {"dead": False, "next": 1}
+
+    def fail(key, i, what):
+        if not state["dead"]:
+            fails.add(key, i, what)
+        state["dead"] = True
+
+    def draw(rg):
+        """a position in the half-open bounds and the object handed to Mesa; returns (expected doubles, object)"""
+        form = rg.choice(["t", "l", "a64", "a32", "ai", "t"])
+        vals = [lo + (hi - lo) * rg.random() * 0.999 for lo, hi in bounds]
+        if form == "a32":
+            arr = np.array(vals, dtype=np.float32)
+            exp = [float(v) for v in arr]
+            if not all(lo <= x < hi for (lo, hi), x in zip(bounds, exp)):
+                arr = np.array(vals, dtype=np.float64)
+                exp = vals
+            return exp, arr
+        if form == "ai":
+            iv = [int(np.floor(v)) for v in vals]
+            if all(lo <= x < hi for (lo, hi), x in zip(bounds, iv)):
+                return [float(v) for v in iv], np.array(iv, dtype=np.int64)
+            form = "a64"
+        if form == "a64":
+            return vals, np.array(vals, dtype=np.float64)
+        return vals, (tuple(vals) if form == "t" else list(vals))
+
+    def report(o):
+        p = o.pos if legacy else o.position
+        return None if p is None else tuple(float(v) for v in p)
+
+    def check_state(i):
+        if state["dead"]:
+            return
+        ms = list(space.agents)
+        labels = [o._label for o in ms]
+        if labels != order:
+            if sorted(labels) != sorted(order):
+                fail(f"{K}/agents/wrong-set", i, f"space.agents holds {len(labels)} agents, {len(order)} were placed and not removed; differing labels: {sorted(set(labels) ^ set(order))[:10]}")
+            else:
+                fail(f"{K}/agents/order", i, "space.agents is not in insertion order")
+            return
+        for o in ms:
+            got = report(o)
+            if got != pos[o._label]:
+                fail(f"{K}/position/not-bit-exact", i, f"agent {o._label} of {len(ms)} reports {got!r}; last assigned {pos[o._label]!r}")
+                return
+
+    def truth(q):
+        """distances of all agents (in `order`) from q: the statement's metric, own float64 formula"""
+        P = np.array([pos[a] for a in order], dtype=np.float64).reshape(len(order), nd)
+        d = np.abs(P - np.asarray(q, dtype=np.float64))
+        if torus:
+            d = np.mod(d, size_v)
+            d = np.minimum(d, size_v - d)
+        return np.sqrt((d * d).sum(axis=1))
+
+    def check_radius(i, site, q, r, labels, dists, exclude=None, centre=True):
+        if state["dead"]:
+            return
+        D = truth(q)
+        idx = {a: j for j, a in enumerate(order)}
+        got = set(labels)
+        if len(got) != len(labels):
+            fail(f"{K}/{site}/duplicate-agents", i, f"{site}: {len(labels) - len(got)} agents returned twice")
+            return
+        for j, a in enumerate(order):
+            if a == exclude:
+                continue
+            d = D[j]
+            if abs(d - r) <= FT_TIE:
+                continue
+            inside = d < r
+            if not centre:
+                if d == 0.0:
+                    inside = False
+                elif d <= FT_TIE:
+                    continue
+            if inside != (a in got):
+                missing = sum(1 for jj, b in enumerate(order) if b != exclude and D[jj] < r - FT_TIE and b not in got)
+                fail(f"{K}/{site}/wrong-agents", i, f"{site} around {list(q)} radius {r!r} with {len(order)} agents (torus={torus}, bounds {bounds}): agent {a} at distance {float(d)!r} must {'' if inside else 'not '}be returned; {len(got)} returned, {missing} within the radius missing")
+                return
+        if dists is not None:
+            for a, dd in zip(labels, dists):
+                if a in idx and abs(float(dd) - D[idx[a]]) > FT_REL * max(1.0, D[idx[a]]):
+                    fail(f"{K}/{site}/distance-inexact", i, f"{site}: agent {a} reported at {float(dd)!r}, is at {float(D[idx[a]])!r}")
+                    return
+
+    def check_knear(i, site, q, k, labels, dists, exclude=None):
+        if state["dead"]:
+            return
+        D = truth(q)
+        idx = {a: j for j, a in enumerate(order)}
+        if len(labels) != k or len(set(labels)) != k or any(a not in idx or a == exclude for a in labels):
+            fail(f"{K}/{site}/wrong-count", i, f"{site}(k={k}) with {len(order)} agents returned {len(labels)} agents ({len(set(labels))} distinct)")
+            return
+        chosen = np.zeros(len(order), dtype=bool)
+        chosen[[idx[a] for a in labels]] = True
+        if exclude is not None:
+            chosen[idx[exclude]] = True
+        far = D[[idx[a] for a in labels]].max() if labels else 0.0
+        rest = D[~chosen]
+        if rest.size and rest.min() < far - FT_TIE:
+            fail(f"{K}/{site}/not-nearest", i, f"{site}(k={k}) with {len(order)} agents: farthest returned at {float(far)!r}, an agent left out at {float(rest.min())!r}")
+            return
+        for a, dd in zip(labels, dists):
+            if abs(float(dd) - D[idx[a]]) > FT_REL * max(1.0, D[idx[a]]):
+                fail(f"{K}/{site}/distance-inexact", i, f"{site}: agent {a} reported at {float(dd)!r}, is at {float(D[idx[a]])!r}")
+                return
+
+    def qpoint(rg):
+        if order and rg.random() < 0.3:
+            return list(pos[rg.choice(order)])
+        return [lo + (hi - lo) * rg.random() for lo, hi in bounds]
+
+    for i, op in enumerate(case["ops"]):
+        kind = op[0]
+        try:
+            if kind == "bulk_add":
+                rg = random.Random(op[2])
+                for _ in range(op[1]):
+                    a = state["next"]
+                    state["next"] += 1
+                    exp, arg = draw(rg)
+                    if legacy:
+                        o = mesa.Agent(model)
+                        o.pos = None
+                        o._label = a
+                        space.place_agent(o, arg)
+                    else:
+                        o = ContinuousSpaceAgent(space, model)
+                        o._label = a
+                        o.position = arg
+                    objs[a] = o
+                    order.append(a)
+                    pos[a] = tuple(exp)
+                check_state(i)
+                obs.append([0, len(order)])
+            elif kind == "bulk_remove":
+                rg = random.Random(op[3])
+                cnt = min(op[1], len(order))
+                if op[2] == "first":
+                    victims = order[:cnt]
+                elif op[2] == "last":
+                    victims = order[-cnt:] if cnt else []
+                elif op[2] == "stride":
+                    victims = order[::max(1, len(order) // max(cnt, 1))][:cnt]
+                else:
+                    victims = rg.sample(order, cnt)
+                for a in victims:
+                    if legacy:
+                        space.remove_agent(objs[a])
+                    else:
+                        objs[a].remove()
+                    del objs[a], pos[a]
+                gone = set(victims)
+                order[:] = [a for a in order if a not in gone]
+                check_state(i)
+                obs.append([0, len(order)])
+            elif kind == "bulk_move":
+                rg = random.Random(op[2])
+                for a in (rg.sample(order, min(op[1], len(order))) if order else []):
+                    exp, arg = draw(rg)
+                    if legacy:
+                        space.move_agent(objs[a], arg)
+                    else:
+                        objs[a].position = arg
+                    pos[a] = tuple(exp)
+                check_state(i)
+                obs.append([0, len(order)])
+            elif kind == "nbrs":
+                rg = random.Random(op[1])
+                q = qpoint(rg)
+                res = space.get_neighbors(tuple(q), op[2], op[3])
+                check_radius(i, "get_neighbors", q, op[2], [o._label for o in res], None, centre=op[3])
+                obs.append([0, len(res)])
+            elif kind == "radius":
+                rg = random.Random(op[1])
+                q = qpoint(rg)
+                agents, dists = space.get_agents_in_radius(np.array(q), op[2])
+                check_radius(i, "get_agents_in_radius", q, op[2], [o._label for o in agents], list(dists))
+                obs.append([0, len(agents)])
+            elif kind == "nbr_radius":
+                rg = random.Random(op[1])
+                if not order:
+                    obs.append([-2])
+                    continue
+                a = rg.choice(order)
+                agents, dists = objs[a].get_neighbors_in_radius(op[2])
+                check_radius(i, "get_neighbors_in_radius", pos[a], op[2], [o._label for o in agents], list(dists), exclude=a)
+                obs.append([0, len(agents)])
+            elif kind in ("knear", "nbr_near"):
+                rg = random.Random(op[1])
+                n = len(order)
+                k = {"n": n, "n-1": n - 1}.get(op[2], op[2])
+                if kind == "knear":
+                    if n == 0 or k < 1 or k > n:
+                        obs.append([-2])
+                        continue
+                    q = qpoint(rg)
+                    agents, dists = space.get_k_nearest_agents(np.array(q), k)
+                    check_knear(i, "get_k_nearest_agents", q, k, [o._label for o in agents], list(dists))
+                else:
+                    if n < 2 or k < 1 or k > n - 1:
+                        obs.append([-2])
+                        continue
+                    a = rg.choice(order)
+                    D = truth(pos[a])
+                    if (D <= FT_TIE).sum() > 1:       # another agent (nearly) on the asker: the documented k+1 boundary
+                        obs.append([-2])
+                        continue
+                    agents, dists = objs[a].get_nearest_neighbors(k)
+                    check_knear(i, "get_nearest_neighbors", pos[a], k, [o._label for o in agents], list(dists), exclude=a)
+                obs.append([0, len(agents)])
+            else:
+                raise ValueError(kind)
+        except Exception as e:  # noqa: BLE001
+            fail(f"{K}/{_site(kind) if not kind.startswith('bulk') else kind}/raises", i, f"{op} with {len(order)} agents raised {type(e).__name__}: {e}")
+            obs.append([-1, 99])
+    return {"obs": obs, "failures": list(fails), "model": False}
+
+
 # ------------------------------------------------------------------ model side
 def _pt(p):
     return L.zlist(p)
@@ -1726,7 +2068,7 @@ def _bs(bounds):
 
 def coq_case(case):
     ops = []
-    if case.get("float"):   # oracle-only stream: nothing for the scaled-integer model to evaluate
+    if case.get("float") or case.get("scale"):   # oracle-only streams: nothing for the scaled-integer model to evaluate
         return "(CLegacy {| lc_bounds := []; lc_torus := false |} [])"
     if case["space"] == "legacy":
         for op in case["ops"]:
@@ -1787,14 +2129,14 @@ def coq_case(case):
 
 
 def op_kinds(case):
-    tag = case["space"] + ("-float" if case.get("float") else "")
+    tag = case["space"] + ("-scale" if case.get("scale") else "-float" if case.get("float") else "")
     return [f"{tag}/{op[0]}" for op in case["ops"]]
 
 
 def nontrivial(case):
     obs = case.get("_obs", [])
     done = [o for o in obs if o and o[0] != -2]
-    if case.get("float"):
+    if case.get("float") or case.get("scale"):
         return len(done) >= 3 and any(len(o) > 1 and o[1] > 0 for o in done)
     queries = {"nbrs", "radius", "knear", "dists", "diffs", "nbr_radius", "nbr_near", "dist", "heading", "pair",
                "dists_of", "diffs_of"}
